@@ -34,6 +34,10 @@ STD_VALUES = {
     "core::ops::range::RangeInclusive::<Idx>::new": lambda a, b: ("range-incl", a, b),
     "core::ops::range::RangeInclusive::<Idx>::contains": _range_contains,
     "core::ops::range::Range::<Idx>::contains": _range_contains,
+    "core::num::<impl i64>::unsigned_abs": lambda a: abs(a),
+    "core::num::<impl i64>::is_negative": lambda a: a < 0,
+    "core::num::<impl i64>::is_positive": lambda a: a > 0,
+    "core::num::<impl i64>::signum": lambda a: (a > 0) - (a < 0),
 }
 
 
